@@ -455,6 +455,17 @@ def x64_ops_same(e, g):
     return (e[2] or None) == (g[2] or None) and (e[5] - g[5]) % (1 << 64) == 0 and (g[1] is None or e[1] == g[1])
 
 
+def x64_ops_similar(e, g):
+    """same operand up to register size and addressing base (used to recognise swapped operands)."""
+    if e[0] != g[0]:
+        return False
+    if e[0] == "reg":
+        return X64_FAMILY.get(e[1], e[1]) == X64_FAMILY.get(g[1], g[1])
+    if e[0] == "imm":
+        return (e[1] - g[1]) % (1 << 32) == 0
+    return (e[5] - g[5]) % (1 << 32) == 0
+
+
 def x64_key(name, form, sym, toks, exp, got):
     """root cause of an x64 finding."""
     if name == "std":
@@ -463,8 +474,7 @@ def x64_key(name, form, sym, toks, exp, got):
         return "x64:call-jmp:rel32-ignored"
     if name == "push":
         return "x64:push:%s" % sym
-    if sym == "operands-swapped" or (name == "cmp" and got is not None and len(got[1]) == 2 and len(exp[1]) == 2
-                                     and exp[1][0][0] == got[1][1][0] and exp[1][1][0] == got[1][0][0] and sym in ("operand-kind", "register")):
+    if sym == "operands-swapped":
         return "x64:cmp:operands-swapped"
     if "mem(rip)" in form and sym in ("mem-base", "operands-swapped"):
         return "x64:mem-rip:encoded-as-absolute"
@@ -503,7 +513,8 @@ def x64_equal(exp, got, start, length, dispmod=1 << 64):
     if emn == "test" and len(eops) == 2 and eops[1][0] != "imm":
         key = lambda o: (o[0] != "mem", str(o))
         eops, gops = sorted(eops, key=key), sorted(gops, key=key)
-    if emn == "cmp" and len(eops) == 2 and x64_ops_same(eops[0], gops[1]) and x64_ops_same(eops[1], gops[0]) and not x64_ops_same(eops[0], eops[1]):
+    if emn == "cmp" and len(eops) == 2 and x64_ops_similar(eops[0], gops[1]) and x64_ops_similar(eops[1], gops[0]) and not (
+            x64_ops_similar(eops[0], gops[0]) and x64_ops_similar(eops[1], gops[1])):
         return "operands-swapped"
     # mov r, imm: `mov eax, imm32` and `mov rax, imm` with a zero-extended value are the same operation
     if emn == "mov" and len(eops) == 2 and eops[0][0] == "reg" and eops[1][0] == "imm" and gops[0][0] == "reg" and gops[1][0] == "imm":
